@@ -1,5 +1,5 @@
 //! Shared helpers for the per-property drivers.
-#![allow(dead_code)]
+
 use log::{Level, LevelFilter};
 
 pub fn level_filter(n: u128) -> LevelFilter {
